@@ -99,6 +99,19 @@ CHECKS = {
              ]},
         ],
     },
+    "C07": {
+        "explanation": "bounded exploration by the symbolic executor of leader reports, ISR shrink/expand requests, timer expiries and controller leadership losses on a controller whose Raft sequencer is a stand-in that runs the real FSM apply",
+        "assumptions": ["raftNode.applyOperation is a stand-in: check preconditions, assign the next index, run the real Server.apply (single-node controller, synchronous)",
+                        "requests are sequential (the check-then-apply race of two concurrent requests is outside this harness)", "virtual timers"],
+        "groups": [
+            {"pkg": "./server", "overlay": "server", "pkgname": "server",
+             "harnesses": [
+                 {"name": "VerifC07Failover", "quick": {"events": 3, "stalekinds": 2}, "thorough": {"events": 4, "stalekinds": 2}, "replay": "interpreted", "max-paths": 3000000,
+                  "covers": ["done", "report", "shrink", "expand", "expiry", "lost-leadership", "election", "ineligible-refused"],
+                  "targets": ["metadataAPI).ReportLeader", "metadataAPI).ShrinkISR", "metadataAPI).ExpandISR", "failoverStatus).report", "metadataAPI).electNewPartitionLeader", "metadataAPI).selectPartitionLeader"]},
+             ]},
+        ],
+    },
     "C08": {
         "explanation": "bounded symbolic execution of commitLog.Clean with compaction on the real log over memFS, survivors compared with an independent oracle",
         "assumptions": ["memFS models the file system", "message timestamps are positive and non-decreasing (server wall clock)",
@@ -169,6 +182,8 @@ CHECKS = {
                  {"name": "VerifC13GroupSubscribe", "quick": {"steps": 5}, "thorough": {"steps": 6},
                   "covers": ["done", "accepted", "refused", "replaced", "client-cancel", "message"],
                   "targets": ["partition).Subscribe", "partition).removeGroupSubscriber", "subscription).Close"]},
+                 {"name": "VerifC13Concurrent", "quick": {"preemptions": 1}, "thorough": {"preemptions": 2}, "replay": "interpreted",
+                  "covers": ["done", "one-refused"], "targets": ["partition).Subscribe"]},
              ]},
         ],
     },
@@ -184,6 +199,7 @@ CHECKS = {
                  {"name": "VerifC17ReadTotal", "quick": {"maxlen": 6}, "thorough": {"maxlen": 48}, "covers": ["done", "error"], "targets": ["LocalEncryptionHandler).Read"]},
                  {"name": "VerifC17Truncated", "covers": ["done"], "targets": ["LocalEncryptionHandler).decryptData"]},
                  {"name": "VerifC17Tampered", "covers": ["done"], "targets": ["LocalEncryptionHandler).Read"]},
+                 {"name": "VerifC17Substituted", "covers": ["done"], "targets": ["LocalEncryptionHandler).Read", "LocalEncryptionHandler).unwrapDEK", "LocalEncryptionHandler).decryptData"]},
              ]},
         ],
     },
@@ -196,6 +212,19 @@ CHECKS = {
              "harnesses": [
                  {"name": "VerifC19Collector", "covers": ["done", "enabled", "disabled"], "replay": "interpreted",
                   "targets": ["Collector).Start", "Collector).sendTelemetry", "Collector).collectPayload", "loadOrCreateInstanceID"]},
+             ]},
+        ],
+    },
+    "C15": {
+        "explanation": "symbolic execution of every apiServer method with authorisation on, the policy answer a symbolic boolean, and metadata/NATS/cursor back ends as effect recorders; the partition and its existing group subscriber are real",
+        "assumptions": ["casbin Enforce is a symbolic boolean per call (the matcher, TLS identity extraction and SIGHUP reload plumbing are outside)",
+                        "metadata API, cursor manager and NATS publish are effect recorders", "the request shapes are one representative per method (Subscribe: group member with newer epoch and Resume on a possibly paused partition; PublishAsync: one message)"],
+        "groups": [
+            {"pkg": "./server", "overlay": "server", "pkgname": "server",
+             "harnesses": [
+                 {"name": "VerifC15Authz", "quick": {"methods": 16}, "thorough": {"methods": 16}, "replay": "interpreted", "max-violations": 40,
+                  "covers": ["done", "allowed", "denied"],
+                  "targets": ["apiServer).ensureAuthorizationPermission", "apiServer).Subscribe", "publishAsyncSession).publishLoop", "apiServer).Publish", "apiServer).CreateStream"]},
              ]},
         ],
     },
@@ -218,6 +247,10 @@ CHECKS = {
 TECH = "bounded symbolic execution of the real Go code (go/ssa) with z3; counterexamples replayed natively"
 
 META = {
+    "C07": {"text": "Bounded model checking of the implementation by the symbolic executor: on a controller with a 3-replica partition, every sequence of k events from {leader report, ISR shrink, ISR expand (each by any of 4 ids incl. a non-replica, naming the current or a stale leader/epoch; stale epochs are arbitrary 64-bit values decided by the solver), report-window expiry, controller leadership loss} runs through the real ReportLeader/ShrinkISR/ExpandISR/failover/FSM code; after every event the leadership invariants are asserted against a witness model.",
+            "design_ref": "DESIGN.md §4 C07", "note": "bounds: k = 3 (quick) / 4 (thorough) events, one partition with 3 replicas, sequential requests; replay by concrete re-execution (Raft stand-in)", "technique": TECH},
+    "C15": {"text": "Symbolic execution of all 16 client API methods of the current source with ACLs on: the policy's answer for the call is a symbolic boolean, back ends are effect recorders, the partition and the consumer group's current subscription are real. On the 'no' side the call must return an error, the effect log must be empty and the existing subscription must still be the active one. The list of methods is fixed in the harness (a new RPC needs a new case).",
+            "design_ref": "DESIGN.md §4 C15", "note": "bounds: one request shape per method, partition paused or not; what is not decided: casbin's matching, certificate -> client id, policy reload plumbing", "technique": TECH},
     "C04": {"text": "Bounded symbolic model checking of the implementation: a batch of publishes with symbolic ack policy, size class, expected offset and encryption outcome runs through the real leader loop and commit loop; replica progress reports (symbolic offsets), ISR shrinks and expansions follow in every order; every ack handed to the ack inbox is recorded and checked against the policy semantics, the stored bytes at the acked offset, and the ISR at the moment the commit loop acted.",
             "design_ref": "DESIGN.md §4 C04", "note": "bounds: batch of 1-2 messages, 2 (quick) / 3 (thorough) follow-up actions, replication factor 1 or 3, min ISR 1..RF; action-atomic interleaving; replay by concrete re-execution (stand-ins)", "technique": TECH},
     "C16": {"text": "Bounded symbolic model checking of the implementation: (a) k conditional single-message appends with arbitrary 64-bit expected offsets on a real log with concurrency control: stored iff -1 or exactly the assigned offset, refused appends leave the log unchanged, no two appends with the same expected offset succeed; (b) the leader loop on such a partition with 2-3 publishes arriving together: each is appended on its own, refused ones get INCORRECT_OFFSET and nothing else is disturbed.",
